@@ -55,6 +55,13 @@ def leaves(B, kind, cplx):
         bun = ift.MatrixProductOperator(dom, m)
         out["sand"] = (ift.SandwichOperator.make(bun, ift.DiagonalOperator(field_of(dom, d))),
                        np.conjugate(m).T @ np.diag(d) @ m)
+        # bun is a pure scaling (shortcut |s|^2 * cheese), no cheese, and a sandwich as cheese (buns are merged)
+        out["sandscal"] = (ift.SandwichOperator.make(ift.ScalingOperator(dom, s), ift.DiagonalOperator(field_of(dom, d))),
+                           np.conjugate(s) * s * np.diag(d))
+        out["sandnone"] = (ift.SandwichOperator.make(bun), np.conjugate(m).T @ m)
+        inner = ift.SandwichOperator.make(ift.MatrixProductOperator(dom, g), ift.DiagonalOperator(field_of(dom, e)))
+        out["sandsand"] = (ift.SandwichOperator.make(ift.ScalingOperator(dom, t), inner),
+                           np.conjugate(t) * t * (np.conjugate(g).T @ np.diag(e) @ g))
     elif kind in ("prod", "prod22"):
         s0, s1 = dom.shape
         d = V("d", (s0, s1))
@@ -116,7 +123,7 @@ class _Dense(ift.LinearOperator):
 
 
 LEAF_NAMES = {
-    "single": ["scal", "scal2", "null", "diag", "diag2", "mat", "sand", "dense"],
+    "single": ["scal", "scal2", "null", "diag", "diag2", "mat", "sand", "dense", "sandscal", "sandnone", "sandsand"],
     "prod": ["scal", "null", "diag", "pdiag0", "pdiag1", "pmat0", "pmat1"],
     "prod22": ["scal", "diag", "pdiag0", "pdiag1", "pmat0", "pmat1"],
     "multi": ["scal", "null", "blk", "blk2", "blkp", "mdiag"],
@@ -145,7 +152,7 @@ def _recip_diag(M):
 
 
 def _isdiag_leaf(name):
-    return name not in ("mat", "sand", "pmat0", "pmat1", "dense", "null")
+    return name not in ("mat", "sand", "pmat0", "pmat1", "dense", "null", "sandnone", "sandsand")
 
 
 def build(tree, lv, scal):
